@@ -3,21 +3,32 @@ package main
 
 import (
 	"encoding/json"
+	"go/token"
+	"go/types"
 	"os"
 
 	"github.com/mazrean/kessoku/internal/migrate"
 )
 
+type history struct {
+	Reserved []string    `json:"reserved"` // names the source package declares at package level
+	Reqs     [][2]string `json:"reqs"`     // (path, desired name)
+}
+
 func main() {
-	var hs [][][2]string // histories of (path, desired name)
+	var hs []history
 	if err := json.NewDecoder(os.Stdin).Decode(&hs); err != nil {
 		panic(err)
 	}
 	out := make([][]string, 0, len(hs))
 	for _, h := range hs {
-		tc := migrate.NewTypeConverter(nil)
+		pkg := types.NewPackage("example.com/p", "p")
+		for _, n := range h.Reserved {
+			pkg.Scope().Insert(types.NewVar(token.NoPos, pkg, n, types.Typ[types.Int]))
+		}
+		tc := migrate.NewTypeConverter(pkg)
 		res := []string{}
-		for _, r := range h {
+		for _, r := range h.Reqs {
 			res = append(res, tc.AddImport(r[0], r[1]))
 		}
 		out = append(out, res)
